@@ -154,6 +154,23 @@ def gen_calls(args=CALL_ARGS):
     return out
 
 
+SINKS = ["mem_store_%s%d(RsV, %%s);" % (sg, w) for sg in "su" for w in (8, 16, 32, 64)] + ["mem_store_u32(%s, RsV);", "r = mem_load_s16(%s);", "RdV = %s;", "RddV = %s;", "PdV = %s;", "JUMP(%s);", "r = %s;", "r = clz32(%s);",
+         "r = clo64(%s);", "if (%s) { r = 1; }", "r = %s ? 1 : 2;", "HEX_REG_ALIAS_LR = %s;", "R5:4 = %s;", "r = extract64(%s, 0, 8);", "r = -%s;", "r = (int8_t)%s;"]
+SOURCES = ["RtV", "RttV", "PuV", "R3", "R11:10", "R1:0", "P0", "HEX_REG_ALIAS_LR", "HEX_REG_ALIAS_UPCYCLE", "siV", "uiV", "SiV", "5", "5U", "5LL", "5ULL", "0xffffffff", "0x100000000", "(4U + 4U)", "(1 + 2LL)", "-3", "~0U", "(3 < 4)",
+           "sizeof(RtV)", "sizeof(R11:10)", "a", "c", "((int64_t)a)", "((uint32_t)a)", "(a + 1)", "PuN", "P0_NEW", "(a < c)", "clz32(a)", "a++", "({ r = a; r + 1; })", "get_npc(pkt)", "HEX_REG_ALIAS_PC"]
+
+
+def gen_sinks():
+    """Every kind of operand / constant / expression as the source of every sink (store data and address, register, pair,
+    predicate and alias writes, jump, argument, condition, cast)."""
+    out = []
+    d = [("int32_t", "a", "input"), ("uint8_t", "c", "input"), ("int64_t", "r", "local")]
+    for sk in SINKS:
+        for src in SOURCES:
+            out.append(P(d, sk % src, ("sink", sk, src)))
+    return out
+
+
 OPERANDS = [("a", [("int32_t", "a", "input")]), ("c", [("uint8_t", "c", "input")]), ("RsV", []), ("RssV", []), ("PuV", []), ("siV", []), ("5", []), ("0x1234LL", []), ("HEX_REG_ALIAS_LR", []), ("PuN", []), ("RxV", []), ("MuV", [])]
 
 
@@ -205,6 +222,15 @@ def gen_folding():
                     t, e = (live, dead) if x == "1" else (dead, live)
                     out.append(P(d, "r = (%s ? %s : %s) + %s;" % (x, t, e, tail), ("cfold4", x, dead, live, tail)))
                     out.append(P(d, "r = %s + (%s ? %s : %s);" % (tail, x, t, e), ("cfold5", x, dead, live, tail)))
+    # the folded-away arm is itself conditional code (its own condition is shared with a guarded statement-expression)
+    DC = [("uint8_t", "c", "input")]
+    for x in ("0", "1"):
+        for inner in ["(a ? ({ r = a; r + 1; }) : c)", "(a ? c : ({ r = c; r; }))", "((a > 0) ? ({ int32_t t = a + 1; t; }) : RtV)", "((int64_t)(a ? ({ r = a; r; }) : 3))", "((a ? ({ r = a; r; }) : 3) + 1)",
+                      "(a ? clz32(a) : c)", "(a && clz32(a))", "(a ? a++ : 1)", "((a < c) ? RsV : RtV)", "(c ? (a ? ({ r = 1; r; }) : 2) : 3)"]:
+            for live in ["RuV", "a", "clz32(c)"]:
+                t, e = (live, inner) if x == "1" else (inner, live)
+                out.append(P(d + DC, "r = %s ? %s : %s;" % (x, t, e), ("cfold6", x, inner, live)))
+                out.append(P(d + DC, "RdV = %s ? %s : %s; r = %s;" % (x, t, e, inner), ("cfold7", x, inner, live)))
     for t in T8:
         out.append(P([(t, "v", "input"), ("int64_t", "r", "local")], "r = sizeof(v) + v;", ("sizeof", t)))
     return out
@@ -250,6 +276,7 @@ def static_space(tier):
     specs += gen_bool_positions(BOOL_EXPRS[:4] if tier == "quick" else BOOL_EXPRS)
     specs += gen_cond_positions()
     specs += gen_calls(CALL_ARGS[:8] if tier == "quick" else CALL_ARGS)
+    specs += gen_sinks()
     specs += c06.space("quick")
     if tier == "thorough":
         specs += c03.space("quick") + c05.space("quick") + c06.space("thorough")
@@ -313,9 +340,14 @@ def unused_pure_statement_ids(src):
         return None
     ids = None
     for n in walk(ast):
+        unused = None
         if isinstance(n, tuple) and len(n) == 2 and n[0] == "expr" and isinstance(n[1], tuple) and not _has_effect(n[1]):
+            unused = n[1]
+        elif isinstance(n, tuple) and len(n) == 2 and n[0] == "sizeof_e":
+            unused = n[1]  # the operand of sizeof is not evaluated: only its type is used
+        if unused is not None:
             ids = ids or set()
-            for m in walk(n[1]):
+            for m in walk(unused):
                 if isinstance(m, tuple) and len(m) == 2 and m[0] == "id":
                     ids.add(m[1])
     return ids
@@ -329,6 +361,8 @@ def unused_pure_statement_leak(src, msg=""):
     if m and re.match(r"^[A-Z][a-z]{1,2}$", m.group(1)):
         # a register / immediate pure: it has to be an operand of such a statement
         return any(i in (m.group(1) + "V", m.group(1) + "N", m.group(1)) for i in ids)
+    if m and re.match(r"^[A-Z]\d+_\d+$", m.group(1)):
+        return m.group(1).replace("_", ":") in ids  # explicit pair R11:10 -> R11_10
     return True
 
 
@@ -369,9 +403,27 @@ def const_cond_dead_operand(src, msg=""):
     return True
 
 
+def const_cond_dead_identifier(src, msg=""):
+    """KF-const-cond-dead-arm on the well-formedness / sort columns: the identifier that lost its declaration has to be an
+    operand (register, immediate, alias) that occurs in a dead arm - never a computed pure (op_, cast_, ite_ ...)."""
+    if not has_const_cond(src):
+        return False
+    m = re.search(r"identifier '?(\w+)'? (?:is not declared|does not hold)|local (\w+) is read but no path", msg)
+    if not m:
+        return True
+    name = m.group(1) or m.group(2)
+    if re.match(r"^(op|cast|ite|ml|ms|seq|branch|jump|gcc|cond|c_call|param_cast|arg_cast|for|empty|nop|imm_assign)_", name) or re.match(r"^h_tmp", name):
+        return False
+    ids = dead_arm_ids(src)
+    if ids is None:
+        return True
+    cands = {name, name + "V", name + "N", name + "iV", name.replace("_", ":"), "HEX_REG_ALIAS_" + name.upper(), name.replace("_new", "") + "N", name.upper().replace("_NEW", "") + "_NEW", "HEX_REG_ALIAS_" + name.upper().replace("_NEW", "") + "_NEW"}
+    return bool(cands & ids)
+
+
 STATIC_FINDINGS = [
-    ("KF-const-cond-dead-arm", "sorts", r"identifier \w+ does not hold a pure|local \w+ is read but no path ever sets it", has_const_cond),
-    ("KF-const-cond-dead-arm", "wellformed", r"identifier '\w+' is not declared before use", has_const_cond),
+    ("KF-const-cond-dead-arm", "sorts", r"identifier \w+ does not hold a pure|local \w+ is read but no path ever sets it", const_cond_dead_identifier),
+    ("KF-const-cond-dead-arm", "wellformed", r"identifier '\w+' is not declared before use", const_cond_dead_identifier),
     ("KF-rw-operand-read-leak", "linearity", r"pure [A-Z][yz]{1,2}\w* is initialised but never used", lambda src: re.search(r"\b[A-Z][yz]{1,2}V\s*=[^=]", src) is not None),
     ("KF-const-cond-dead-arm", "linearity", r"pure \w+ is initialised but never used \(leak\)|pure \w+ is consumed 2 times without DUP", const_cond_dead_operand),
     ("KF-unused-value-statement-leak", "linearity", r"pure \w+ is initialised but never used \(leak\)", unused_pure_statement_leak),
@@ -380,7 +432,7 @@ STATIC_FINDINGS = [
 
 def attribute(col, msg, src):
     for fid, c, rx, pred in STATIC_FINDINGS:
-        if c == col and re.search(rx, msg) and (pred(src, msg) if pred in (unused_pure_statement_leak, const_cond_dead_operand) else pred(src)):
+        if c == col and re.search(rx, msg) and (pred(src, msg) if pred in (unused_pure_statement_leak, const_cond_dead_operand, const_cond_dead_identifier) else pred(src)):
             return fid
     return None
 
